@@ -72,6 +72,11 @@ T = {
          "The filter decides from a 3-token window, so enumerating every stream of length <=3 over an alphabet that contains every omissible element (with/without attributes), look-alike names, foreign elements, void elements, text, whitespace, comments and doctype visits every decision it can make; longer streams over a reduced alphabet would expose state added by a change. Each removed token is checked against ref/optional_tags.py.",
          "ref/optional_tags.py (my transcription of the June-2020 WHATWG 'optional tags' section) is trusted; element names outside the alphabet behave like 'unknownx'; Characters tokens that begin with whitespace are outside the walker contract and not in the alphabet",
          "6/C13"),
+ "C15": ("exploration",
+         "bounded exhaustive enumeration: all head words <=3 over 10 head letters (both declaration forms, non-declaring metas, non-ASCII title, a script that looks like a meta, comment, 1100-byte filler) x 3 bodies x 35 output encodings x optional-tag omission on/off, each run through the real parse -> walk -> inject_meta_charset -> serialize(encoding) -> parse(bytes, no hints) pipeline; oracle = documentEncoding equals the requested encoding and the tree equals an independently computed expected tree (declarations rewritten / one injected first in head)",
+         "The expected tree is computed by a small independent model of what the filter must do, not by the filter; unencodable characters must come back through character references because the trees are compared after decoding.",
+         "covers the encodings whose WHATWG name is also a Python codec name (35 of 40); UTF-16LE/BE output is a listed known finding; Python codecs trusted",
+         "6/C15"),
  "C16": ("model_checking",
          "explicit-state BFS over the six tokenizer character alphabets (document and fragment parses; every prefix = every truncation at EOF) and the eight tree themes; state key = suspended parser state; oracle on every execution: strict raises html5parser.ParseError iff the non-strict run records an error, the message is the first recorded error's, every record has a code in constants.E that formats with its variables and a position inside the input; fixed list of conforming documents records none",
          "Both parses (strict and non-strict) are executed on the real parser for every explored word, so every reachable (tokenizer state x EOF) and (insertion mode x token) error site inside the bounds is hit, and the error-code coverage (111 of 132 codes in quick) is reported.",
